@@ -6,6 +6,7 @@ mod sut;
 mod seq;
 mod props;
 mod conc;
+mod conc2;
 mod comp;
 
 use std::collections::HashMap;
